@@ -378,6 +378,7 @@ def stream_sdk(ctx: lib.Ctx) -> None:
         jobs.append({"model": m, "ops": [{"op": "constants"}, {"op": "enums", "probes": probes}], "probes": probes})
     results = sdkrun.run_ops(jobs)
     set_cases, set_meta, enum_cases, enum_meta = [], [], [], []
+    explained = set()     # (model, constant) for which the oracle already produced a failing input
     n_prims = n_sets = n_enums = 0
     nontrivial = []
     for job, res in zip(jobs, results):
@@ -432,7 +433,16 @@ def stream_sdk(ctx: lib.Ctx) -> None:
                     continue
                 got = {py_equal_class(typed(x)) for x in o["items"]}
                 if got != {py_equal_class(typed(x)) for x in want} or got != {py_equal_class(typed(x)) for x in want_listed}:
-                    ctx.impl_failure(f"constant-set-members-{'enum' if is_enum else k.items_type}",
+                    boundaries = "\x1c\x1d\x1e\x85\u2028\u2029"
+                    plain_ok = all(py_equal_class(typed(sdkg.enc_plain(v))) in got for v in k.values
+                                   if not (isinstance(v, str) and any(b in v for b in boundaries))) if not is_enum else False
+                    affected = [v for v in k.values if isinstance(v, str) and any(b in v for b in boundaries)]
+                    if affected and plain_ok and len(got) == len({py_equal_class(typed(x)) for x in want_listed}):
+                        skey = "constant-set-literal-with-line-separator-indented"
+                    else:
+                        skey = f"constant-set-members-{'enum' if is_enum else k.items_type}-{lib.stable_key([repr(v) for v in k.values])}"
+                    explained.add((m.tag, k.name))
+                    ctx.impl_failure(skey,
                                      f"constant set {k.name}: members differ from listed literals + subsets' literals",
                                      {"model": m.source, "constant": k.name, "expected": want}, o, "sdk")
                 try:
@@ -480,6 +490,8 @@ def stream_sdk(ctx: lib.Ctx) -> None:
     bad, _ = lib.run_cases(ctx.work, "sets", HEADER, "set_case", "bad_set", set_cases)
     for i in bad[:10]:
         m, name, o = set_meta[i]
+        if (m.tag, name) in explained:
+            continue      # same disagreement, already reported with its failing input
         ctx.corr_break("sdk-constant-set", {"model": m.source, "constant": name},
                        "closure_lits / listed literals of the specification", o)
     bad, _ = lib.run_cases(ctx.work, "enums", HEADER, "enum_case", "bad_enum", enum_cases)
